@@ -181,6 +181,7 @@ def run_path(fi, con, prefix):
     try:
         fr = setup(ex, fi, con)
         assume_axioms(ex, fr)
+        ex.assume(ex.alloc[z3.IntVal(0)])      # object 0 (None) carries the global ghost state; it is never "fresh"
         ex.good_heap()
         is_init = fi.name == "__init__"
         ex.self_stack = [fr.self_val.t] if (fr.self_val is not None and fr.self_val.t is not None) else []
@@ -331,7 +332,7 @@ def budget_for(name, tier):
     base = load_baseline().get(name)
     mult = 1 if tier == "quick" else 4
     if base is None:
-        return 150_000_000 * mult, False
+        return 40_000_000 * mult, False
     return max(25_000_000, min(40 * int(base), 600_000_000)) * mult, True
 
 
